@@ -91,8 +91,13 @@ impl AttributeParser {
     }
 
     fn parse_literal(&mut self, name: Ident, lit: Literal) -> Nested {
-        // TODO: Error if there are any tokens following
-        let _ = self.collect_tail(Empty);
+        // `skip "a" priority = 3`: nothing may follow the literal, further arguments need
+        // the `skip("a", priority = 3)` form
+        let unexpected = self.collect_tail(Empty);
+
+        if !unexpected.is_empty() {
+            return Nested::Unexpected(unexpected);
+        }
 
         Nested::Named(name, NestedValue::Literal(lit))
     }
@@ -110,7 +115,11 @@ impl AttributeParser {
     }
 
     fn parse_keyword(&mut self, keyword: Ident, name: Ident) -> Nested {
-        let error = expect_punct(self.next_tt(), '=');
+        let error = match self.next_tt() {
+            // `subpattern x, "a"` / `type T`: the `=` is missing altogether
+            None => return Nested::Unexpected(TokenStream::from(TokenTree::Ident(name))),
+            next => expect_punct(next, '='),
+        };
 
         match error {
             Some(error) => {
